@@ -75,8 +75,10 @@ class Facts:
             self.ineqs.append({("atom", x.uid): 1})
         elif x.op in ("index",):
             self.ineqs.append({("atom", x.uid): 1})
-        elif x.op == "bin" and x.args[0] == "FloorDiv" and is_const(unsnap(x.args[2])) and isinstance(cval(unsnap(x.args[2])), int) and cval(unsnap(x.args[2])) > 0:
-            k = cval(unsnap(x.args[2]))
+        elif x.op == "bin" and ((x.args[0] == "FloorDiv" and is_const(unsnap(x.args[2])) and isinstance(cval(unsnap(x.args[2])), int) and cval(unsnap(x.args[2])) > 0)
+                                or (x.args[0] == "RShift" and is_const(unsnap(x.args[2])) and isinstance(cval(unsnap(x.args[2])), int) and 0 <= cval(unsnap(x.args[2])) <= 64)):
+            # (x >> k is x // 2**k for every integer x)
+            k = cval(unsnap(x.args[2])) if x.args[0] == "FloorDiv" else 1 << cval(unsnap(x.args[2]))
             lx = lin(x.args[1])
             q = {("atom", x.uid): 1}
             if lx is not None:
